@@ -326,7 +326,17 @@ class C14(core.Check):
         main = case['main']
         g = c12.G(rnd, main)
         g.w('\\usepackage{babel}\n')
+        files = {}
+        extra_args = []
+        if case['s'] % 3 == 0:
+            # phrase replacements (main language only) that change the length of the text in front of the words
+            g.w(rnd.choice(['yphra yphrb ', 'yphrc ', 'yphra yphrb yphrc ']))
+            files['r.txt'] = 'yphra yphrb & yx\nyphrc & ylonger replacement text\n'
+            extra_args = ['--replace', 'r.txt']
         g.seq(rnd.randint(2, 6))
+        if extra_args and g.stack[-1] == main and len(g.stack) == 1 and rnd.random() < .6:
+            g.w(' yphrc yphra yphrb ')
+            g.word()
         rep_offsets = []
         if case['s'] % 5 < 2:
             # the very same foreign passage twice: two identical parts are submitted in one run, each occurrence of
@@ -350,9 +360,12 @@ class C14(core.Check):
         args = ['--multi-language', '--language', main, '--ml-continue-threshold', str(T),
                 '--ml-rule-threshold', str(R), '--disable', 'RULEA', '--enable', 'RULEB',
                 '--disablecategories', 'CATA', '--ml-disable', 'MLRULE', '--ml-disablecategories', 'MLCAT',
-                '--output', case['mode'], 'f.tex']
-        r = shellrun.run_shell(args, {'f.tex': src}, plan, workdir=self.tmp)
+                '--output', case['mode']] + extra_args + ['f.tex']
+        files['f.tex'] = src
+        r = shellrun.run_shell(args, files, plan, workdir=self.tmp)
         cnt = {'fam_ml': 1}
+        if extra_args:
+            cnt['ml_with_replacements'] = 1
         detail = dict(src=src, main=main, T=T, R=R, stderr=r.err[-800:] if r.err else '')
         if r.timed_out:
             return dict(ok=True, nt=False, key=None, cnt={'timeouts': 1}, obs=None, harness_error='watchdog')
@@ -561,7 +574,7 @@ class C14(core.Check):
     def quotas(self, tier):
         return {'fam_doc': 40, 'docs_with_own_checks': 10, 'plain_input_docs': 8, 'flagged_words_judged': 300, 'fam_ml': 25, 'ml_words_judged': 100,
                 'ml_runs_with_several_parts': 10, 'ml_short_parts': 5, 'pairs_judged': 50, 'server_requests': 10, 'server_option_checks': 10,
-                'docs_with_non_ascii_words': 5, 'split_words': 20, 'ml_repeated_parts': 8, 'docs_with_enclosing_match': 15}
+                'docs_with_non_ascii_words': 5, 'split_words': 20, 'ml_repeated_parts': 8, 'ml_with_replacements': 10, 'docs_with_enclosing_match': 15}
 
 
 CHECK = C14
